@@ -222,6 +222,40 @@ def nested_isolation():
     ent.descriptor.Type.Code = 'changed'
     if mdib_text() != base or mt.canon(mdib.descriptions.handle.get_one(h), mdib) != descr_text:
         bad.append({'key': 'entity-aliases-mdib', 'detail': 'changing an entity changes the MDIB without a transaction'})
+    # 2b. entities stay private copies after entity.update() (single state and context states, nested members)
+    from sdc11073.xml_types import pm_qnames as _pm
+    try:
+        cases += 1
+        ent2 = mdib.entities.by_handle(h)
+        with mdib.metric_state_transaction() as mgr:
+            mgr.get_state(h).MetricValue.MetricQuality.Validity = pm_types.MeasurementValidity.VALID
+        ent2.update()
+        snap = mt.snapshot(mdib)
+        ent2.state.MetricValue.MetricQuality.Validity = pm_types.MeasurementValidity.INVALID
+        ent2.state.MetricValue.Annotation.append(pm_types.Annotation(pm_types.CodedValue('9')))
+        ent2.descriptor.Type.Code = 'changed again'
+        if mt.snapshot(mdib) != snap:
+            bad.append({'key': 'updated-entity-aliases-mdib', 'detail': f'after entity.update() a nested change of the entity changes the MDIB: {mt.diff(snap, mt.snapshot(mdib))[:2]}'})
+        pd = [d for d in mdib.descriptions.objects if d.NODETYPE == _pm.PatientContextDescriptor]
+        if pd:
+            cases += 1
+            with mdib.context_state_transaction() as mgr:
+                cst = mgr.mk_context_state(pd[0].Handle, set_associated=True)
+                cst.CoreData.Middlename.append('M1')
+                ch = cst.Handle
+            cent = mdib.entities.by_handle(pd[0].Handle)
+            with mdib.context_state_transaction() as mgr:
+                mgr.get_context_state(ch).CoreData.Givenname = 'G'
+                other = mgr.mk_context_state(pd[0].Handle)
+                other.CoreData.Middlename.append('M2')
+            cent.update()
+            snap = mt.snapshot(mdib)
+            for st_ in cent.states.values():
+                st_.CoreData.Middlename.append('leak')
+            if mt.snapshot(mdib) != snap:
+                bad.append({'key': 'updated-entity-aliases-mdib', 'detail': f'after MultiStateEntity.update() a nested change of an entity state changes the MDIB: {mt.diff(snap, mt.snapshot(mdib))[:2]}'})
+    except Exception as ex:  # noqa: BLE001
+        bad.append({'key': 'entity-update-raises', 'detail': f'entity.update(): {ex!r}'})
     # 3. earlier published results are not changed by later transactions
     with mdib.metric_state_transaction() as mgr:
         st = mgr.get_state(h)
